@@ -228,6 +228,8 @@ func (in *Interp) conv(tdst, tsrc types.Type, x Value) Value {
 			case *Term:
 				_, ssigned, _ := intInfo(us)
 				return tt.Resize(xv, dw, ssigned)
+			case SymFloat:
+				return tt.Resize(xv.T, dw, true)
 			case Float:
 				f := math.Trunc(xv.V)
 				bf := new(big.Float).SetFloat64(f)
